@@ -1,3 +1,4 @@
 import Usual.Common
-/-! Model driver for C19 (stub: not built yet). -/
-def main : IO Unit := IO.println "stub"
+/-! C19 shares the talloc model and its driver with C01: the check (checks/C19.py) runs
+`drv_c01` (lean/Driver/C01.lean).  This target only exists because the lakefile declares it. -/
+def main : IO Unit := IO.println "C19 uses drv_c01 (see lean/Driver/C01.lean)"
